@@ -82,6 +82,7 @@ type hostileOpts struct {
 	VictimWrites  bool  // victim is in the write list
 	WriteList     []int // nil: authors (+victim); explicit peer indices otherwise; -1 = "*"
 	DefaultAC     bool  // no access-controller options at creation: creator only
+	ACType        string // "" (ipfs) | "simple"
 	SharedOpts    bool  // the victim first opens a sibling database with the wildcard list, then this one, with the same options value
 }
 
@@ -103,7 +104,7 @@ func newHostileEnv(ctx context.Context, o hostileOpts) (*hostileEnv, error) {
 	for i := 1; i < A; i++ {
 		openOn = append(openOn, i)
 	}
-	cl, err := world.NewCluster(ctx, world.ClusterOpts{N: N, Type: o.Type, Replicate: &no, Writers: writers, OpenOn: openOn, DefaultAC: o.DefaultAC})
+	cl, err := world.NewCluster(ctx, world.ClusterOpts{N: N, Type: o.Type, Replicate: &no, Writers: writers, OpenOn: openOn, DefaultAC: o.DefaultAC, ACType: o.ACType})
 	if err != nil {
 		return nil, err
 	}
@@ -122,7 +123,7 @@ func newHostileEnv(ctx context.Context, o hostileOpts) (*hostileEnv, error) {
 			return nil, err
 		}
 	}
-	s, err := cl.W.Peers[env.V].DB.Open(ctx, cl.Addr, vopts)
+	s, err := cl.W.Peers[env.V].DB.Open(ctx, cl.Addr, cl.OpenOpts(vopts))
 	if err != nil {
 		cl.Close()
 		return nil, err
@@ -133,7 +134,7 @@ func newHostileEnv(ctx context.Context, o hostileOpts) (*hostileEnv, error) {
 		return nil, err
 	}
 	// attacker: opens the database too (anyone can), replication off
-	sx, err := cl.W.Peers[env.X].DB.Open(ctx, cl.Addr, &orbitdb.CreateDBOptions{Replicate: &no})
+	sx, err := cl.W.Peers[env.X].DB.Open(ctx, cl.Addr, cl.OpenOpts(&orbitdb.CreateDBOptions{Replicate: &no}))
 	if err != nil {
 		cl.Close()
 		return nil, err
